@@ -327,9 +327,35 @@ func (c *trCtx) perfGetAlias(x *ast.AssignStmt) bool {
 	if !known {
 		trFail(x.Pos(), "x := get(&m): %s has no value here", mid.Name)
 	}
-	if lo := c.info().Defs[lid]; lo != nil {
-		c.names[lo] = n // the two variables share one Lean variable: an assignment through either rebinds it
+	lo := c.info().Defs[lid]
+	if lo == nil {
+		trFail(x.Pos(), "x := get(&m): x must be a new variable")
 	}
+	// sharing one Lean variable is exact only while neither name is rebound: `x = …` or `m = …` anywhere in the function would
+	// separate the two in Go (x keeps pointing to the old map) but not in the translation
+	if c.fn != nil && c.fn.decl != nil {
+		ast.Inspect(c.fn.decl, func(n ast.Node) bool {
+			as, ok := n.(*ast.AssignStmt)
+			if !ok || as == x {
+				return true
+			}
+			for _, l := range as.Lhs {
+				id, isID := trUnparen(l).(*ast.Ident)
+				if !isID {
+					continue
+				}
+				o := c.info().Uses[id]
+				if o == nil {
+					o = c.info().Defs[id]
+				}
+				if o == lo || o == mo {
+					trFail(as.Pos(), "%s is assigned here and is one of the two names of the map in `%s := get(&%s)`: outside the subset", id.Name, lid.Name, mid.Name)
+				}
+			}
+			return true
+		})
+	}
+	c.names[lo] = n // the two variables share one Lean variable: an assignment through either rebinds it
 	return true
 }
 
